@@ -22,7 +22,6 @@ Definition ev_eqb (a b : event) : bool :=
   | _, _ => false
   end.
 
-Definition visible (e : event) : bool := match e with EParse _ | EClose => false | _ => true end.
 
 Definition smuggle_unit : Z := 32.
 Definition smuggle_base : Z := 1000000.
